@@ -79,8 +79,16 @@ def run(res, tier, seed, shard, nshards):
         for lat in (0.0, 1e-3, to / 2):
             for traffic in ("none", "periodic"):
                 jobs.append(("interleave", interval, to, lat, traffic))
+    for interval, to in ((1.0, 0.4), (3.0, 1.0), (2.0, 0.9)):
+        for silent_from in (0, 1, 3):
+            for traffic in ("none", "periodic"):
+                jobs.append(("rel-silent", interval, to, silent_from, traffic))
+        jobs.append(("rel-responsive", interval, to))
     for ji, job in enumerate(jobs):
         if ji % nshards != shard:
+            continue
+        if job[0] in ("rel-silent", "rel-responsive"):
+            rel_case(res, W, rng, job)
             continue
         if job[0] == "second-use":
             second_use_case(res, W, rng, *job[1:])
@@ -470,3 +478,71 @@ def interleave_case(res, W, rng, interval, to, lat, traffic, n, seed):
             t, e = errs[0]
             res.violation("responsive-peer-reported", f"schedule #{i}: on_error({type(e).__name__}: {e}) at t={t} although every ping (interval {interval}, timeout {to}) was answered after {lat}s",
                           case, latency_class="interleave", error=type(e).__name__, traffic=traffic)
+
+
+def rel_case(res, W, rng, job):
+    """the same supervision through an external (rel-style) dispatcher: the timeout check runs from the dispatcher's
+    timer.  How the timeout is surfaced there (on_error, or the exception leaving the dispatcher's loop - see the C14/C15
+    known finding) is not judged here; *when* is."""
+    kind, interval, to = job[0], job[1], job[2]
+    silent_from = job[3] if kind == "rel-silent" else None
+    traffic = job[4] if kind == "rel-silent" else "periodic"
+    dur = 12 * interval
+    script = traffic_script(traffic, 0.0, to, interval, dur) + ([(dur, "close", b"")] if kind == "rel-responsive" else [])
+    pong = (lambda k, t: (0.0 if k < silent_from else None)) if kind == "rel-silent" else 0.01
+    out = {}
+
+    def scen():
+        S = sched.CURRENT
+        H.reset_process_state()
+        run = appsim.AppRun([dict(outcome="ok", script=script, pong=pong)], last_repeats=False)
+        out["run"] = run
+        rel = appsim.SimRel()
+        run.run_forever(ping_interval=interval, ping_timeout=to, ping_payload="ka", dispatcher=rel)
+        try:
+            rel.dispatch(horizon=dur + 60)
+        except sched.SimAbort:
+            raise
+        except BaseException as e:  # noqa
+            out["dispatch_exc"] = (S.now, e)
+        out["end"] = S.now
+
+    S = sched.Sched(horizon=dur + 200, watchdog=60)
+    failure = None
+    try:
+        S.run(scen)
+    except sched.SimFailure as e:
+        failure = e
+    run = out.get("run")
+    res.case((kind, interval, to, silent_from, traffic), nontrivial=True)
+    res.count("external_dispatcher_runs")
+    case = {"kind": kind, "interval": interval, "timeout": to, "silent_from_ping": silent_from, "traffic": traffic, "dispatcher": "rel"}
+
+    def bad(k, detail, **kw):
+        res.violation(k, f"external dispatcher, interval={interval} timeout={to} silent_from={silent_from} traffic={traffic}: {detail}", case, dispatcher="rel", **kw)
+    if run is None or not run.servers:
+        res.inconc(f"rel case did not connect: {failure}")
+        return
+    srv = run.servers[0]
+    errs = [(t, a[0]) for (t, n, a, ci, ac) in run.trace if n == "on_error" and isinstance(a[0], W.WebSocketTimeoutException)]
+    dexc = out.get("dispatch_exc")
+    if dexc is not None and isinstance(dexc[1], W.WebSocketTimeoutException):
+        errs.append(dexc)
+    if kind == "rel-responsive":
+        if errs or dexc is not None:
+            bad("responsive-peer-reported", f"timeout surfaced at t={(errs or [dexc])[0][0]} although every ping was answered after 0.01s", latency_class="rel")
+        elif len(srv.pings) < 9:
+            bad("too-few-pings", f"{len(srv.pings)} pings in {dur}s")
+        return
+    if len(srv.pings) <= silent_from:
+        bad("no-ping-reached-peer", f"only {len(srv.pings)} pings arrived ({type(failure).__name__ if failure else 'ended'})")
+        return
+    P = srv.pings[silent_from][0]
+    if not errs:
+        bad("never-detected", f"first unanswered ping at t={P}; no ping/pong timeout surfaced by t={out.get('end')} ({type(failure).__name__ if failure else 'dispatcher loop ended'})",
+            detected=False, settings_class="rel")
+        return
+    t_err = min(t for t, e in errs)
+    res.count("detection_latency_checked")
+    if t_err > P + 2 * to + 1e-6:
+        bad("detected-late", f"first unanswered ping at t={P}, surfaced at t={t_err} (> P + 2*timeout)", detected=True, settings_class="rel")
